@@ -130,7 +130,8 @@ def split_arms(body):
 
 
 def squash(s):
-    return re.sub(r"\s+", "", s)
+    """drop whitespace and rustfmt's trailing commas before a closing bracket"""
+    return re.sub(r",([)\]}])", r"\1", re.sub(r"\s+", "", s))
 
 
 def match_on(body, scrutinee_re):
@@ -187,7 +188,7 @@ def cmp_arms(match_body, fn, op):
         m = re.match(r"^Some\(Value::Bool\((.*)\)\)$", squash(rhs))
         if not m:
             raise Shape("%s %s: arm result is not Some(Value::Bool(..)): %s" % (fn, op, rhs))
-        inner = re.match(r"^Some\s*\(\s*Value::Bool\s*\((.*)\)\s*\)$", rhs.strip(), flags=re.S).group(1)
+        inner = m.group(1)
         if lt not in TY or rt not in TY:
             raise Shape("%s %s: operand type %s/%s" % (fn, op, lt, rt))
         rows.append("mkArm %s O%s %s %s (%s)" % (fn, op, TY[lt], TY[rt], classify_cmp(inner, lt, lv, rt, rv)))
